@@ -148,6 +148,8 @@ def judge(run, engine):
             reentrant_calls += 1
             n_re = sum(1 for x in run.txs if x.td is tx.td and x.top is tx.top)
             shapes.add((tuple(sorted(set(rel))), must, info.get("kind"), min(n_re, 3), engine))
+        if v[0] == "exc" and v[1] == "TypeError" and tx.td.get("kw"):
+            continue  # the call itself was rejected (reserved keyword argument): nothing to check, nothing to run
         inv_failed_first = v[0] in ("exc", "fault") and v[2] is not None and "/inv" in v[2] and tx.bodies == 0
         if must and has and not observed and not inv_failed_first:
             where = "callee-in-own-body" if "body-same-unit" in rel else ("plain" if not rel else "+".join(sorted(set(rel))))
